@@ -188,6 +188,26 @@ def _check_merge(a_steps, b_steps, decl, order, res):
             res.violation(f"C20|merge|{name}-not-concatenation", f"got {got.tolist()} expected {exp.tolist()}", case)
     if abs(float(M.distance[-1]) - (lenA + lenB)) > 1e-9 * (1 + lenA + lenB):
         res.violation("C20|merge|length-not-additive", f"{float(M.distance[-1])} != {lenA}+{lenB}", case)
+    # the merged lanelet must itself satisfy the arc-length clauses (its distance may have been pre-computed by merge)
+    mc_, ml_, mr_ = ca + cb[1:], la + lb[1:], ra + rb[1:]
+    _, seg = _walker(mc_, ml_, mr_, 0.0)
+    cum = [0.0]
+    for L in seg:
+        cum.append(cum[-1] + L)
+    try:
+        md = [float(x) for x in M.distance]
+        if len(md) != len(cum) or any(abs(a - b) > 1e-9 * (1 + b) for a, b in zip(md, cum)):
+            res.violation(f"C20|merge|order:{order}|merged-distance-wrong", f"{md} expected {cum}", case)
+        for i, L in enumerate(seg):
+            s_ = cum[i] + L / 2
+            exp, _ = _walker(mc_, ml_, mr_, s_)
+            c, r, l, idx = M.interpolate_position(s_)
+            if not any(all(abs(a - b) <= TOL * (1 + abs(b)) for P, Q in ((c, ec), (r, er), (l, el)) for a, b in zip(P, Q))
+                       for ec, er, el, ei in exp):
+                res.violation(f"C20|merge|order:{order}|merged-interpolate-wrong-point", f"s={s_}: {list(c)} expected {exp}", case)
+                break
+    except Exception as e:
+        res.violation(f"C20|merge|order:{order}|merged-query-raises:{type(e).__name__}", repr(e), case)
     if sorted(M.predecessor) != [9] or sorted(M.successor) != [11, 12]:
         res.outcomes["merge-relations-differ(info)"] += 1
     res.outcomes["merge-ok"] += 1
